@@ -1,5 +1,6 @@
 /* C05 / C14 part 1: record-direction driver of the arithmetic layer.
-   usage: drv_arith record <quick|thorough> [family ...]       (families: zz red mod ww pp word qr; default all)
+   usage: drv_arith record <quick|thorough> [family ...]       (families: zz red mod ww pp word qr ring pri; default all;
+   "ring" = only the alias macros of qr.h / zm.h / gfp.h, which "qr" includes)
    Enumerates STRUCTURE (operand lengths, boundary-alphabet shapes, modulus classes, aliasing) and fills
    only the "seeded" positions from VERIF_SEED.  One ndjson line per library call:
    fam, op, ed (def|safe|fast: edition called BY NAME through SAFE()/FAST()), W (bits per word), n, m,
@@ -20,6 +21,7 @@
 #include <bee2/math/zm.h>
 #include <bee2/math/gfp.h>
 #include <bee2/math/gf2.h>
+#include <bee2/math/pri.h>
 
 #define NW 100                       /* capacity of an operand in words */
 #define BMAX WORD_MAX
@@ -1472,7 +1474,7 @@ static void word_value(u64 v, const char* cls)
 	W1_INT(u32, "u32", 32, "CTZ", "safe", SAFE(u32CTZ)); W1_INT(u32, "u32", 32, "CTZ", "fast", FAST(u32CTZ));
 	W1_INT(u32, "u32", 32, "CLZ", "safe", SAFE(u32CLZ)); W1_INT(u32, "u32", 32, "CLZ", "fast", FAST(u32CLZ));
 	if (v & 1) W1_W(u32, "u32", 32, "NegInv", u32NegInv);
-	W1_W(u64, "u64", 64, "Rev", u64Rev); W1_W(u64, "u64", 64, "Bitrev", u64Bitrev); W1_W(u64, "u64", 64, "Shuffle", u64Shuffle); W1_W(u64, "u64", 64, "Deshuffle", u64Deshuffle);
+	W1_W(u64, "u64", 64, "Rev", u64Rev); W1_W(u64, "u64", 64, "Rev_", u64Rev_); W1_W(u64, "u64", 64, "Bitrev", u64Bitrev); W1_W(u64, "u64", 64, "Shuffle", u64Shuffle); W1_W(u64, "u64", 64, "Deshuffle", u64Deshuffle);
 	W1_INT(u64, "u64", 64, "Weight", "def", u64Weight); W1_INT(u64, "u64", 64, "Parity", "def", u64Parity);
 	W1_INT(u64, "u64", 64, "CTZ", "safe", SAFE(u64CTZ)); W1_INT(u64, "u64", 64, "CTZ", "fast", FAST(u64CTZ));
 	W1_INT(u64, "u64", 64, "CLZ", "safe", SAFE(u64CLZ)); W1_INT(u64, "u64", 64, "CLZ", "fast", FAST(u64CLZ));
@@ -1489,6 +1491,35 @@ static void word_value(u64 v, const char* cls)
 		if (d < 32) { WROT(u32, "u32", 32, "RotHi", u32RotHi); WROT(u32, "u32", 32, "RotLo", u32RotLo); }
 		WROT(u64, "u64", 64, "RotHi", u64RotHi); WROT(u64, "u64", 64, "RotLo", u64RotLo);
 		if (d < B_PER_W) { WROT(word, "word", B_PER_W, "RotHi", wordRotHi); WROT(word, "word", B_PER_W, "RotLo", wordRotLo); }
+	}
+}
+/* comparison macros of word.h: 6 relations x 3 result kinds (int truth value, WORD_0 / WORD_1, WORD_0 / WORD_MAX) on all pairs
+   of the boundary alphabet (0, 1, 2, h-1, h, h+1, B-2, B-1, seeded); "expr" = the arguments are expressions (x ^ z with
+   z = 0): the macro has to parenthesise its parameters */
+static void wcmp_emit(const char* rel, const char* kind, const char* fn, word a, word b, int isint, long long ri, word rw,
+	const char* cls, const char* alias)
+{
+	LB("word", "wordCmp", "def"); jStr("famw", "word"); jStr("fn", fn); jStr("rel", rel); jStr("kind", kind); jInt("bits", B_PER_W);
+	LWord("a", a); LWord("b", b);
+	if (isint) jInt("ret", ri); else LWord("ret", rw);
+	LE_(cls, alias);
+}
+#define WCMP3(REL, X, Y, cls, alias) do { \
+	wcmp_emit(#REL, "int", #REL, a, b, 1, (long long)(word##REL(X, Y)), 0, cls, alias); \
+	wcmp_emit(#REL, "01", #REL "01", a, b, 0, 0, word##REL##01(X, Y), cls, alias); \
+	wcmp_emit(#REL, "0M", #REL "0M", a, b, 0, 0, word##REL##0M(X, Y), cls, alias); } while (0)
+#define WCMP18(X, Y, cls, alias) do { WCMP3(Eq, X, Y, cls, alias); WCMP3(Neq, X, Y, cls, alias); WCMP3(Less, X, Y, cls, alias); \
+	WCMP3(Leq, X, Y, cls, alias); WCMP3(Greater, X, Y, cls, alias); WCMP3(Geq, X, Y, cls, alias); } while (0)
+static void fam_word_cmp(void)
+{
+	int i, j; volatile word z = 0; char cls[64];
+	for (i = 0; i < 9; ++i) for (j = 0; j < 9; ++j)
+	{
+		word a = alpha(i), b = alpha(j);
+		snprintf(cls, sizeof(cls), "(a,b)=(%s,%s)", AN[i], AN[j]);
+		WCMP18(a, b, cls, "none");
+		if ((i + j) % 4 == 0) WCMP18(a ^ z, b ^ z, cls, "expr");
+		if (i == 8 && j == 8) { b = a; WCMP18(a, b, "(a,b)=(s,same)", "none"); b = a + 1; WCMP18(a, b, "(a,b)=(s,s+1)", "none"); b = a - 1; WCMP18(a, b, "(a,b)=(s,s-1)", "none"); }
 	}
 }
 #define U16BLK(FN, ED, EXPR) do { for (base = 0; base < 65536; base += 256) { long long out[256]; int i_; \
@@ -1525,7 +1556,10 @@ static void fam_word(void)
 		FROMTO(u16, a16, 16, u16From, u16To, u16Rev2);
 		FROMTO(u32, a32, 32, u32From, u32To, u32Rev2);
 		FROMTO(u64, a64, 64, u64From, u64To, u64Rev2);
+		/* the machine-word aliases of ww.h: wwFrom, wwTo, wwRev2 */
+		{ word aw[8]; FROMTO(word, aw, B_PER_W, wwFrom, wwTo, wwRev2); }
 	}
+	fam_word_cmp();
 }
 
 /* ------------------------------------------------------------------ qr: rings Z/(mod) built by zmCreate* */
@@ -1586,7 +1620,153 @@ static void qr_ring(qr_o* r, const char* ctor, const char* strat, const num* mod
 		}
 	}
 }
-static void fam_qr(void)
+/* ------------------------------------------------------------------ alias macros of qr.h, zm.h, gfp.h
+   zmAdd / zmSub / zmNeg / gfpDouble / gfpHalf / qrIsUnity / qrCmp / zmIsIn expand to the DEFAULT name of zzAddMod, zzSubMod,
+   zzNegMod, zzDoubleMod, zzHalfMod, wwEq, wwCmp.  Every macro is expanded twice: with that name bound to the regular and to
+   the fast edition of the callee (lines with ed = safe | fast, C14 part 1).  The macro text is the header's. */
+#define ALIAS_WRAPPERS(SFX) \
+static void al_add_##SFX(word* c, const word* a, const word* b, const qr_o* r) { zmAdd(c, a, b, r); } \
+static void al_sub_##SFX(word* c, const word* a, const word* b, const qr_o* r) { zmSub(c, a, b, r); } \
+static void al_neg_##SFX(word* b, const word* a, const qr_o* r) { zmNeg(b, a, r); } \
+static void al_dbl_##SFX(word* b, const word* a, const qr_o* r) { gfpDouble(b, a, r); } \
+static void al_half_##SFX(word* b, const word* a, const qr_o* r) { gfpHalf(b, a, r); } \
+static bool_t al_isin_##SFX(const word* a, const qr_o* r) { return zmIsIn(a, r); } \
+static bool_t al_isunity_##SFX(const word* a, const qr_o* r) { return qrIsUnity(a, r); } \
+static int al_cmp_##SFX(const word* b, const word* a, const qr_o* r) { return qrCmp(b, a, r); }
+#define zzAddMod SAFE(zzAddMod)
+#define zzSubMod SAFE(zzSubMod)
+#define zzNegMod SAFE(zzNegMod)
+#define zzDoubleMod SAFE(zzDoubleMod)
+#define zzHalfMod SAFE(zzHalfMod)
+#define wwEq SAFE(wwEq)
+#define wwCmp SAFE(wwCmp)
+ALIAS_WRAPPERS(safe)
+#undef zzAddMod
+#undef zzSubMod
+#undef zzNegMod
+#undef zzDoubleMod
+#undef zzHalfMod
+#undef wwEq
+#undef wwCmp
+#define zzAddMod FAST(zzAddMod)
+#define zzSubMod FAST(zzSubMod)
+#define zzNegMod FAST(zzNegMod)
+#define zzDoubleMod FAST(zzDoubleMod)
+#define zzHalfMod FAST(zzHalfMod)
+#define wwEq FAST(wwEq)
+#define wwCmp FAST(wwCmp)
+ALIAS_WRAPPERS(fast)
+#undef zzAddMod
+#undef zzSubMod
+#undef zzNegMod
+#undef zzDoubleMod
+#undef zzHalfMod
+#undef wwEq
+#undef wwCmp
+typedef struct {
+	void (*add)(word*, const word*, const word*, const qr_o*); void (*sub)(word*, const word*, const word*, const qr_o*);
+	void (*neg)(word*, const word*, const qr_o*); void (*dbl)(word*, const word*, const qr_o*); void (*half)(word*, const word*, const qr_o*);
+	bool_t (*isin)(const word*, const qr_o*); bool_t (*isunity)(const word*, const qr_o*); int (*cmp)(const word*, const word*, const qr_o*);
+} alias_tab;
+static const alias_tab ALT[2] = {
+	{ al_add_safe, al_sub_safe, al_neg_safe, al_dbl_safe, al_half_safe, al_isin_safe, al_isunity_safe, al_cmp_safe },
+	{ al_add_fast, al_sub_fast, al_neg_fast, al_dbl_fast, al_half_fast, al_isin_fast, al_isunity_fast, al_cmp_fast } };
+static const char* EDN[2] = { "safe", "fast" };
+static void qr_begin_ed(const char* op, const char* ed, const char* ctor, const char* strat, const octet* mod, size_t no)
+{
+	LB("qr", op, ed); jStr("ctor", ctor); jStr("strat", strat); jInt("no", (long long)no); jOct("mod", mod, no);
+}
+/* gfp: the ring is a prime field built by gfpCreate (gfpDouble / gfpHalf are called as well) */
+static void ring_alias(qr_o* r, const char* ctor, const char* strat, const num* mod, const octet* modo, size_t no, int gfp)
+{
+	size_t n = r->n; int i, j, ed; num a, b; octet ao[NW * 8], bo[NW * 8], co[NW * 8]; char c2[200]; bool_t ok; int sg;
+	int known = strcmp(strat, "unknown") != 0;
+	/* zmIsValid: the description as built, and with the top word of the modulus cleared (the third condition of zm.h) */
+	for (i = 0; i < 2; ++i)
+	{
+		word top = r->mod[n - 1];
+		if (i) r->mod[n - 1] = 0;
+		ok = 0; qr_begin_ed("zmIsValid", "def", ctor, strat, modo, no); LW("top", r->mod + n - 1, 1); CALL(ok = zmIsValid(r)); jInt("ret", ok);
+		r->mod[n - 1] = top;
+		MKCLS("mod=%s,%s", mod->nm, i ? "top-word-cleared" : "as-built"); LE_(CLS, "none");
+	}
+	/* zmIsIn on raw arrays of n words around the modulus */
+	for (i = 0; i < 8; ++i)
+	{
+		static const char* RW[8] = { "0", "1", "m-1", "m", "m+1", "FF", "rand", "m^1" };
+		wwCopy(A, mod->v, n);
+		switch (i)
+		{
+		case 0: wwSetZero(A, n); break; case 1: wwSetZero(A, n); A[0] = 1; break; case 2: zzSubW2(A, n, 1); break; case 3: break;
+		case 4: if (zzAddW2(A, n, 1)) continue; break; case 5: set_fill(A, n, BMAX); break; case 6: vxRandBuf(A, n * O_PER_W); break;
+		default: A[0] ^= 1; break;
+		}
+		for (ed = 0; ed < 2; ++ed)
+		{
+			ok = 0; qr_begin_ed("zmIsIn", EDN[ed], ctor, strat, modo, no); LW("aw", A, n); CALL(ok = ALT[ed].isin(A, r)); jInt("ret", ok);
+			MKCLS("mod=%s,aw=%s", mod->nm, RW[i]); LE_(CLS, "none");
+		}
+	}
+	for (i = 0; i < NRES; ++i)
+	{
+		mkres(&a, mod, i); wwTo(ao, no, a.v);
+		if (!qrFrom(A, ao, r, STACK)) continue;
+		snprintf(c2, sizeof(c2), "mod=%s,a=%s", mod->nm, a.nm);
+		for (ed = 0; ed < 2; ++ed)
+		{
+			ok = 0; qr_begin_ed("qrIsUnity", EDN[ed], ctor, strat, modo, no); jOct("a", ao, no); CALL(ok = ALT[ed].isunity(A, r)); jInt("ret", ok); LE_(c2, "none");
+			set_fill(C, n, 0x5A); if ((i + ed) % 2) wwCopy(C, A, n);
+			qr_begin_ed("zmNeg", EDN[ed], ctor, strat, modo, no); jOct("a", ao, no);
+			if ((i + ed) % 2) CALL(ALT[ed].neg(C, C, r)); else CALL(ALT[ed].neg(C, A, r));
+			qrTo(co, C, r, STACK); jOct("out", co, no); LE_(c2, (i + ed) % 2 ? "b=a" : "none");
+			if (gfp)
+			{
+				set_fill(C, n, 0x5A); if ((i + ed) % 2 == 0) wwCopy(C, A, n);
+				qr_begin_ed("gfpDouble", EDN[ed], ctor, strat, modo, no); jOct("a", ao, no);
+				if ((i + ed) % 2 == 0) CALL(ALT[ed].dbl(C, C, r)); else CALL(ALT[ed].dbl(C, A, r));
+				qrTo(co, C, r, STACK); jOct("out", co, no); LE_(c2, (i + ed) % 2 == 0 ? "b=a" : "none");
+				set_fill(C, n, 0x5A); if ((i + ed) % 2) wwCopy(C, A, n);
+				qr_begin_ed("gfpHalf", EDN[ed], ctor, strat, modo, no); jOct("a", ao, no);
+				if ((i + ed) % 2) CALL(ALT[ed].half(C, C, r)); else CALL(ALT[ed].half(C, A, r));
+				qrTo(co, C, r, STACK); jOct("out", co, no); LE_(c2, (i + ed) % 2 ? "b=a" : "none");
+			}
+		}
+		/* a + 1 (separate and in place), a - 1 (in place by definition of the macro) */
+		set_fill(C, n, 0x5A);
+		qr_begin_ed("qrAddUnity", "def", ctor, strat, modo, no); jOct("a", ao, no); CALL(qrAddUnity(C, A, r)); qrTo(co, C, r, STACK); jOct("out", co, no); LE_(c2, "none");
+		set_fill(C, n, 0x5A); wwCopy(C, A, n);
+		qr_begin_ed("qrAddUnity", "def", ctor, strat, modo, no); jOct("a", ao, no); CALL(qrAddUnity(C, C, r)); qrTo(co, C, r, STACK); jOct("out", co, no); LE_(c2, "b=a");
+		set_fill(C, n, 0x5A); wwCopy(C, A, n);
+		qr_begin_ed("qrSubUnity", "def", ctor, strat, modo, no); jOct("a", ao, no); CALL(qrSubUnity(C, r)); qrTo(co, C, r, STACK); jOct("out", co, no); LE_(c2, "in-place");
+		for (j = 0; j < NRES; ++j)
+		{
+			int al = (i + j) % 3;
+			if (!THOROUGH && !(i <= R_ONE || j <= R_ONE || i == R_M1 || j == R_M1 || i == j || j == (i + 1) % NRES)) continue;
+			mkres(&b, mod, j); wwTo(bo, no, b.v);
+			if (!qrFrom(B_, bo, r, STACK)) continue;
+			snprintf(c2, sizeof(c2), "mod=%s,a=%s,b=%s", mod->nm, a.nm, b.nm);
+			for (ed = 0; ed < 2; ++ed)
+			{
+				if (known)
+				{
+					sg = 2; qr_begin_ed("qrCmp", EDN[ed], ctor, strat, modo, no); jOct("a", ao, no); jOct("b", bo, no);
+					CALL(sg = ALT[ed].cmp(A, B_, r)); jInt("ret", sg); LE_(c2, i == j ? "a=b" : "none");
+				}
+				/* c disjoint, c == a, c == b (qr_add_i: c either does not overlap or coincides with each of a, b) */
+				set_fill(C, n, 0x5A); if (al == 1) wwCopy(C, A, n); else if (al == 2) wwCopy(C, B_, n);
+				qr_begin_ed("zmAdd", EDN[ed], ctor, strat, modo, no); jOct("a", ao, no); jOct("b", bo, no);
+				if (al == 1) CALL(ALT[ed].add(C, C, B_, r)); else if (al == 2) CALL(ALT[ed].add(C, A, C, r)); else CALL(ALT[ed].add(C, A, B_, r));
+				qrTo(co, C, r, STACK); jOct("out", co, no); LE_(c2, al == 1 ? "c=a" : al == 2 ? "c=b" : "none");
+				set_fill(C, n, 0x5A); if (al == 2) wwCopy(C, A, n); else if (al == 0) wwCopy(C, B_, n);
+				qr_begin_ed("zmSub", EDN[ed], ctor, strat, modo, no); jOct("a", ao, no); jOct("b", bo, no);
+				if (al == 2) CALL(ALT[ed].sub(C, C, B_, r)); else if (al == 0) CALL(ALT[ed].sub(C, A, C, r)); else CALL(ALT[ed].sub(C, A, B_, r));
+				qrTo(co, C, r, STACK); jOct("out", co, no); LE_(c2, al == 2 ? "c=a" : al == 0 ? "c=b" : "none");
+			}
+		}
+	}
+}
+/* what: 1 = the function table (qr_ring), 2 = the alias macros (ring_alias) */
+static void fam_qr(int what)
 {
 	static const size_t LQ[] = { 1, 2, 3, 4 }, LT[] = { 1, 2, 3, 4, 5, 6, 8, 9 };
 	static const char* SNM[4] = { "plain", "crand", "barr", "mont" };
@@ -1610,9 +1790,41 @@ static void fam_qr(void)
 			if (mod_is_odd(&mod)) zmCreateMont(rr[3], modo, no, STACK), have[3] = 1;
 			zmCreate(rr[4], modo, no, STACK); have[4] = 1;
 			for (k = 0; k < 4; ++k) if (have[k] && rr[k]->mul == rr[4]->mul && rr[k]->from == rr[4]->from) { strat = SNM[k]; break; }
-			qr_ring(rr[4], "zmCreate", strat, &mod, modo, no);
+			if (what & 1) qr_ring(rr[4], "zmCreate", strat, &mod, modo, no);
+			if (what & 2) ring_alias(rr[4], "zmCreate", strat, &mod, modo, no, 0);
 			if (THOROUGH || n <= 2)
-				for (k = 0; k < 4; ++k) if (have[k]) { char cn[32]; snprintf(cn, sizeof(cn), "zmCreate%c%s", SNM[k][0] - 32, SNM[k] + 1); qr_ring(rr[k], cn, SNM[k], &mod, modo, no); }
+				for (k = 0; k < 4; ++k) if (have[k])
+				{
+					char cn[32]; snprintf(cn, sizeof(cn), "zmCreate%c%s", SNM[k][0] - 32, SNM[k] + 1);
+					if (what & 1) qr_ring(rr[k], cn, SNM[k], &mod, modo, no);
+					if ((what & 2) && (THOROUGH || n <= 1 || k == 3)) ring_alias(rr[k], cn, SNM[k], &mod, modo, no, 0);
+				}
+			/* prime moduli: the same ring as a field GF(p) built by gfpCreate */
+			if ((what & 2) && (mc == M_CRP || mc == M_MERS || mc == M_THREE || mc == M_ODDHI || mc == M_ODDLO))
+			{
+				num pm = mod; bool_t ok = TRUE;
+				if (mc == M_ODDHI || mc == M_ODDLO)
+				{
+					/* the least prime >= the seeded odd number, of the same bit length (the generator of the INPUT, not judged here) */
+					ok = priNextPrime_deep(n, 64) <= sizeof(STACK) && priNextPrime(pm.v, mod.v, n, SIZE_MAX, 64, 24, STACK);
+					snprintf(pm.nm, sizeof(pm.nm), "prime-%s", mc == M_ODDHI ? "hi" : "lo");
+				}
+				if (ok && wwOctetSize(pm.v, n) == no && gfpCreate_keep(no) <= sizeof(QRMEM[0]) && gfpCreate_deep(no) <= sizeof(STACK))
+				{
+					octet po[NW * 8]; qr_o* f = (qr_o*)QRMEM[0]; const char* fs = "unknown";
+					wwTo(po, no, pm.v);
+					if (gfpCreate(f, po, no, STACK))
+					{
+						/* the strategy gfpCreate selected: compare with the explicitly built rings of the same modulus */
+						qr_o* t = (qr_o*)QRMEM[1];
+						zmCreatePlain(t, po, no, STACK); if (t->mul == f->mul && t->from == f->from) fs = "plain";
+						if (mod_is_crand(mc) && n >= 2 && no == n * O_PER_W) { zmCreateCrand(t, po, no, STACK); if (t->mul == f->mul && t->from == f->from) fs = "crand"; }
+						zmCreateBarr(t, po, no, STACK); if (t->mul == f->mul && t->from == f->from) fs = "barr";
+						zmCreateMont(t, po, no, STACK); if (t->mul == f->mul && t->from == f->from) fs = "mont";
+						ring_alias(f, "gfpCreate", fs, &pm, po, no, 1);
+					}
+				}
+			}
 		}
 	}
 }
@@ -1652,6 +1864,271 @@ static void fam_gf2(void)
 				if (i != PR_ZERO) { GB("qrDiv"); jOct("a", ao, no); jOct("b", bo, no); g_sig = a.nm; CALL(qrDiv(C, B_, A, f, STACK)); g_sig = ""; qrTo(co, C, f, STACK); jOct("out", co, no); LE_(c2, "none"); }
 			}
 		}
+		/* gf2.h: extension degree, membership of raw arrays of n words, additive alias macros */
+		{
+			size_t d = 0, ns = nshapes(n), pos;
+			snprintf(c2, sizeof(c2), "field=%s", mod.nm);
+			GB("gf2Deg"); CALL(d = gf2Deg(f)); jInt("ret", (long long)d); LE_(c2, "none");
+			for (i = 0; i < (int)ns + 3; ++i)
+			{
+				bool_t in = 0;
+				if (i < (int)ns) mkshape(&a, n, i);
+				else
+				{
+					pos = i == (int)ns ? m - 1 : i == (int)ns + 1 ? m : n * B_PER_W - 1;
+					if (pos >= n * B_PER_W) continue;
+					memset(a.v, 0, sizeof(a.v)); a.n = n; wwSetBit(a.v, pos, 1);
+					strcpy(a.nm, i == (int)ns ? "x^(m-1)" : i == (int)ns + 1 ? "x^m" : "x^(nW-1)");
+				}
+				GB("gf2IsIn"); LW("aw", a.v, n); CALL(in = gf2IsIn(a.v, f)); jInt("ret", in);
+				snprintf(c2, sizeof(c2), "field=%s,aw=%s", mod.nm, a.nm); LE_(c2, "none");
+			}
+			for (i = 0; i < NPR; ++i)
+			{
+				mkpres(&a, &mod, i); wwTo(ao, no, a.v);
+				if (!qrFrom(A, ao, f, STACK)) continue;
+				snprintf(c2, sizeof(c2), "field=%s,a=%s", mod.nm, a.nm);
+				set_fill(C, n, 0x5A);
+				GB("gf2Neg"); jOct("a", ao, no); CALL(gf2Neg(C, A, f)); qrTo(co, C, f, STACK); jOct("out", co, no); LE_(c2, "none");
+				set_fill(C, n, 0x5A); wwCopy(C, A, n);
+				GB("gf2Neg"); jOct("a", ao, no); CALL(gf2Neg(C, C, f)); qrTo(co, C, f, STACK); jOct("out", co, no); LE_(c2, "b=a");
+				for (j = 0; j < NPR; ++j)
+				{
+					int al = (i + j) % 3;
+					mkpres(&b, &mod, j); wwTo(bo, no, b.v);
+					if (!qrFrom(B_, bo, f, STACK)) continue;
+					snprintf(c2, sizeof(c2), "field=%s,a=%s,b=%s", mod.nm, a.nm, b.nm);
+					set_fill(C, n, 0x5A); if (al == 1) wwCopy(C, A, n); else if (al == 2) wwCopy(C, B_, n);
+					GB("gf2Add"); jOct("a", ao, no); jOct("b", bo, no);
+					if (al == 1) CALL(gf2Add(C, C, B_, f)); else if (al == 2) CALL(gf2Add(C, A, C, f)); else CALL(gf2Add(C, A, B_, f));
+					qrTo(co, C, f, STACK); jOct("out", co, no); LE_(c2, al == 1 ? "c=a" : al == 2 ? "c=b" : "none");
+					set_fill(C, n, 0x5A); if (al == 2) wwCopy(C, A, n); else if (al == 0) wwCopy(C, B_, n);
+					GB("gf2Sub"); jOct("a", ao, no); jOct("b", bo, no);
+					if (al == 2) CALL(gf2Sub(C, C, B_, f)); else if (al == 0) CALL(gf2Sub(C, A, C, f)); else CALL(gf2Sub(C, A, B_, f));
+					qrTo(co, C, f, STACK); jOct("out", co, no); LE_(c2, al == 2 ? "c=a" : al == 0 ? "c=b" : "none");
+					/* b <- b + a, b <- b - a */
+					set_fill(C, n, 0x5A); wwCopy(C, B_, n);
+					GB("gf2Add2"); jOct("a", ao, no); jOct("b", bo, no); CALL(gf2Add2(C, A, f)); qrTo(co, C, f, STACK); jOct("out", co, no); LE_(c2, "none");
+					set_fill(C, n, 0x5A); wwCopy(C, B_, n);
+					GB("gf2Sub2"); jOct("a", ao, no); jOct("b", bo, no); CALL(gf2Sub2(C, A, f)); qrTo(co, C, f, STACK); jOct("out", co, no); LE_(c2, "none");
+				}
+			}
+		}
+	}
+}
+
+/* ------------------------------------------------------------------ ww: window NAF (the recoding used by ecMulA) */
+static void naf_line(const word* a, size_t n, size_t w, const char* cls)
+{
+	size_t l = 0;
+	wwCopy(A, a, n); set_fill(C, 2 * n + 1, 0x5A);
+	WL("wwNAF", "def"); jInt("n", n); jInt("w", (long long)w); LW("a", A, n);
+	CALL(l = wwNAF(C, A, n, w));
+	LW("naf", C, 2 * n + 1); jInt("ret", (long long)l); LE_(cls, "none");
+}
+static const char* posname(size_t pos, size_t n, size_t w, char* buf)
+{
+	size_t W = B_PER_W, top = n * W;
+	if (pos == 0) return "0"; if (pos == 1) return "1";
+	if (pos == top - 1) return "nW-1"; if (pos == top - 2) return "nW-2";
+	if (pos == w - 1) return "w-1"; if (pos == w) return "w"; if (pos == W - 1) return "W-1"; if (pos == W) return "W";
+	if (pos + w + 1 == top) return "nW-w-1"; if (pos + w == top) return "nW-w";
+	sprintf(buf, "%u", (unsigned)pos); return buf;
+}
+static void fam_ww_naf(void)
+{
+	const size_t W = B_PER_W;
+	size_t WQ[] = { 2, 3, 4, 5, 6, B_PER_W - 1 }, WT[B_PER_W - 2], nw, wi, n, w, i, t; num a; char c2[160], pb[24];
+	for (i = 0; i < B_PER_W - 2; ++i) WT[i] = i + 2;           /* thorough: every admissible width 2 <= w < B_PER_W */
+	nw = THOROUGH ? COUNT_OF(WT) : COUNT_OF(WQ);
+	for (n = 0; n <= (THOROUGH ? 5u : 4u); ++n) for (wi = 0; wi < nw; ++wi)
+	{
+		w = THOROUGH ? WT[wi] : WQ[wi];
+		for (i = 0; i < nshapes(n); ++i) { mkshape(&a, n, (int)i); snprintf(c2, sizeof(c2), "w=%u,a=%s", (unsigned)w, a.nm); naf_line(a.v, n, w, c2); }
+		if (n == 0) continue;
+		/* periodic patterns: runs of ones of length run separated by gap zeros (long carry chains of the recoding) */
+		{
+			size_t runs[6], gaps[2], ri, gi, pos, k;
+			runs[0] = 1; runs[1] = 2; runs[2] = 3; runs[3] = w - 1; runs[4] = w; runs[5] = w + 1; gaps[0] = 1; gaps[1] = w;
+			for (ri = 0; ri < 6; ++ri) for (gi = 0; gi < 2; ++gi)
+			{
+				if (runs[ri] == 0 || (ri >= 3 && runs[ri] <= 3)) continue;
+				memset(a.v, 0, sizeof(a.v)); a.n = n;
+				for (pos = 0; pos < n * W; pos += runs[ri] + gaps[gi]) for (k = 0; k < runs[ri] && pos + k < n * W; ++k) wwSetBit(a.v, pos + k, 1);
+				snprintf(c2, sizeof(c2), "w=%u,a=runs(%s)gap(%s)", (unsigned)w, ri == 0 ? "1" : ri == 1 ? "2" : ri == 2 ? "3" : ri == 3 ? "w-1" : ri == 4 ? "w" : "w+1", gi ? "w" : "1");
+				naf_line(a.v, n, w, c2);
+			}
+		}
+		/* single bits */
+		{
+			size_t P[10], np = 0;
+			P[np++] = 0; P[np++] = 1; P[np++] = w - 1; P[np++] = w; P[np++] = W - 1; P[np++] = W; P[np++] = n * W - w - 1; P[np++] = n * W - w; P[np++] = n * W - 2; P[np++] = n * W - 1;
+			for (t = 0; t < np; ++t)
+			{
+				size_t u; int dup = 0;
+				if (P[t] >= n * W) continue;
+				for (u = 0; u < t; ++u) if (P[u] == P[t]) dup = 1;
+				if (dup) continue;
+				memset(a.v, 0, sizeof(a.v)); a.n = n; wwSetBit(a.v, P[t], 1);
+				snprintf(c2, sizeof(c2), "w=%u,a=bit(%s)", (unsigned)w, posname(P[t], n, w, pb)); naf_line(a.v, n, w, c2);
+				/* all ones below the bit / above the bit */
+				memset(a.v, 0, sizeof(a.v)); for (u = 0; u <= P[t]; ++u) wwSetBit(a.v, u, 1);
+				snprintf(c2, sizeof(c2), "w=%u,a=ones-below(%s)", (unsigned)w, posname(P[t], n, w, pb)); naf_line(a.v, n, w, c2);
+				memset(a.v, 0, sizeof(a.v)); for (u = P[t]; u < n * W; ++u) wwSetBit(a.v, u, 1);
+				snprintf(c2, sizeof(c2), "w=%u,a=ones-from(%s)", (unsigned)w, posname(P[t], n, w, pb)); naf_line(a.v, n, w, c2);
+			}
+		}
+		/* a = (2^w - k) 2^j, k odd < 2^(w-1): the NAF ends with  -k, 0 (w-1 times), 1  = the suffix that ww.h replaces */
+		{
+			word ks[3]; size_t js[5], ki, ji;
+			ks[0] = 1; ks[1] = 3; ks[2] = (WORD_1 << (w - 1)) - 1;
+			js[0] = 0; js[1] = 1; js[2] = W - 1; js[3] = n * W - w - 1; js[4] = n * W - w;
+			for (ki = 0; ki < 3; ++ki) for (ji = 0; ji < 5; ++ji)
+			{
+				if (ks[ki] >= (WORD_1 << (w - 1)) || (ki == 1 && w < 4) || js[ji] + w > n * W || (ji >= 2 && js[ji] <= 1) || (ji >= 3 && js[ji] == W - 1)) continue;
+				memset(a.v, 0, sizeof(a.v)); a.n = n;
+				a.v[0] = (WORD_1 << w) - ks[ki]; if (n >= 2) wwShHi(a.v, n, js[ji]); else a.v[0] <<= js[ji];
+				snprintf(c2, sizeof(c2), "w=%u,a=(2^w-%s)<<%s", (unsigned)w, ki == 0 ? "1" : ki == 1 ? "3" : "(2^(w-1)-1)",
+					ji == 0 ? "0" : ji == 1 ? "1" : ji == 2 ? "(W-1)" : ji == 3 ? "(nW-w-1)" : "(nW-w)");
+				naf_line(a.v, n, w, c2);
+			}
+		}
+		for (t = 0; t < (THOROUGH ? 4u : 2u); ++t) { mkshape(&a, n, S_RAND); snprintf(c2, sizeof(c2), "w=%u,a=rand", (unsigned)w); naf_line(a.v, n, w, c2); }
+	}
+}
+
+/* ------------------------------------------------------------------ generator tapes (gen_i): seeded pseudorandom octets, all-FF, all-00 */
+typedef struct { int mode; size_t used; } tape_st;
+static const char* TPN[3] = { "seeded", "FF", "00" };
+static void tape_gen(void* buf, size_t count, void* state)
+{
+	tape_st* t = (tape_st*)state;
+	if (t->mode == 0) vxRandBuf(buf, count); else memset(buf, t->mode == 1 ? 0xFF : 0, count);
+	t->used += count;
+}
+/* zz: random residues.  The header promises the range of the result and, for octets of good quality, success */
+static void fam_zz_rand(void)
+{
+	static const size_t LQ[] = { 1, 2, 3, 4 }, LT[] = { 1, 2, 3, 4, 5, 6, 9, 16, 21 };
+	size_t t, cnt = THOROUGH ? COUNT_OF(LT) : COUNT_OF(LQ); int mc, nz, tp; num mod;
+	for (t = 0; t < cnt; ++t)
+	{
+		size_t n = THOROUGH ? LT[t] : LQ[t];
+		for (mc = -1; mc < NMC; ++mc)
+		{
+			if (mc < 0) { if (n != 1) continue; memset(mod.v, 0, sizeof(mod.v)); mod.n = 1; mod.v[0] = 1; strcpy(mod.nm, "one"); }
+			else if (!mkmod(&mod, n, mc)) continue;
+			if (mod.v[n - 1] == 0) continue;                         /* pre: mod[n - 1] != 0 */
+			for (nz = 0; nz < 2; ++nz) for (tp = 0; tp < 5; ++tp)
+			{
+				tape_st ts; bool_t ok = 0;
+				if (nz && n == 1 && mod.v[0] == 1) continue;         /* pre: mod != 1 */
+				ts.mode = tp < 3 ? 0 : tp - 2; ts.used = 0;
+				set_fill(C, n, 0x5A);
+				LB("zz", nz ? "zzRandNZMod" : "zzRandMod", "def"); jInt("n", n); LW("mod", mod.v, n); jStr("tape", TPN[ts.mode]);
+				if (nz) CALL(ok = zzRandNZMod(C, mod.v, n, tape_gen, &ts)); else CALL(ok = zzRandMod(C, mod.v, n, tape_gen, &ts));
+				LW("c", C, n); jInt("ret", ok); jInt("used", (long long)ts.used);
+				MKCLS("mod=%s,tape=%s", mod.nm, TPN[ts.mode]); LE_(CLS, "none");
+			}
+		}
+	}
+}
+
+/* ------------------------------------------------------------------ pri: remainders modulo the factor base, prime extension */
+static word MODS[1024 + 8];
+static void num_of_u64(num* o, u64 v, const char* nm)
+{
+	memset(o->v, 0, sizeof(o->v)); strcpy(o->nm, nm);
+#if (B_PER_W == 64)
+	o->v[0] = (word)v; o->n = 1;
+#else
+	o->v[0] = (word)v; o->v[1] = (word)(v >> 32); o->n = o->v[1] ? 2 : 1;
+#endif
+}
+static void fam_pri(void)
+{
+	static const size_t CQ[] = { 0, 1, 2, 3, 4, 5, 6, 7, 8, 9, 10, 11, 12, 16, 17, 31, 32, 33, 64, 95, 96 };
+	static const size_t LQ[] = { 0, 1, 2, 3, 4, 6, 9 }, LT[] = { 0, 1, 2, 3, 4, 5, 6, 8, 9, 16, 17, 21 };
+	static const int PS[] = { S_ZERO, S_ONE, S_MAX, S_HIBIT, S_ALT, S_RAND };
+	size_t li, i, ci, lcnt = THOROUGH ? COUNT_OF(LT) : COUNT_OF(LQ), base = priBaseSize(); num a; char c2[128];
+	for (li = 0; li < lcnt; ++li)
+	{
+		size_t n = THOROUGH ? LT[li] : LQ[li], P = n <= 1 ? nshapes(n) : COUNT_OF(PS) + 2;
+		for (i = 0; i < P; ++i)
+		{
+			if (n <= 1 || i < COUNT_OF(PS)) mkshape(&a, n, n <= 1 ? (int)i : PS[i]);
+			else
+			{
+				/* multiples of elements of the factor base: the product of the first k primes that fits / (B^n - 1) rounded down to a multiple of the last prime */
+				memset(a.v, 0, sizeof(a.v)); a.n = n;
+				if (i == COUNT_OF(PS))
+				{
+					/* 3 * 5 * 7 * ... as long as the product fits n words */
+					size_t k; word t[NW];
+					a.v[0] = 1;
+					for (k = 0; k < base; ++k) { wwCopy(t, a.v, n); if (zzMulW(t, t, n, priBasePrime(k))) break; wwCopy(a.v, t, n); }
+					strcpy(a.nm, "product-of-base-primes");
+				}
+				else { word r; set_fill(a.v, n, BMAX); r = zzModW(a.v, n, priBasePrime(base - 1)); zzSubW2(a.v, n, r); strcpy(a.nm, "multiple-of-last-base-prime"); }
+			}
+			for (ci = 0; ci < COUNT_OF(CQ) + 2; ++ci)
+			{
+				size_t count = ci < COUNT_OF(CQ) ? CQ[ci] : ci == COUNT_OF(CQ) ? base - 1 : base;
+				word* out = count <= 96 ? C : MODS; long ov = -1; size_t k;
+				if (!THOROUGH && ci >= 13 && (ci + i + li) % 3) continue;
+				wwCopy(A, a.v, n);
+				if (out == C) set_fill(C, count, 0x5A); else for (k = 0; k < COUNT_OF(MODS); ++k) MODS[k] = k < count ? 0x5A : CANARY;
+				LB("pri", "priBaseMod", "def"); jInt("n", n); jInt("count", (long long)count); LW("a", A, n);
+				CALL(priBaseMod(out, A, n, count));
+				LW("mods", out, count);
+				if (out == MODS) { for (k = count; k < COUNT_OF(MODS); ++k) if (MODS[k] != CANARY) { ov = (long)(k - count); break; } if (ov >= 0) jInt("overrun", ov + 1); }
+				snprintf(c2, sizeof(c2), "a=%s,count=%s", a.nm, count == base ? "base" : count == base - 1 ? "base-1" : ""); if (count < base - 1) sprintf(c2 + strlen(c2), "%u", (unsigned)count);
+				LE_(c2, "none");
+			}
+		}
+	}
+	/* priExtendPrime2 / priExtendPrime: p = 2 q a r + 1 of l bits, l <= 81 (primality of p is decided exactly by the specification) */
+	{
+		static const struct { const char* nm; unsigned bits; u64 q; } QS[] = { { "3", 2, 3 }, { "7", 3, 7 }, { "257", 9, 257 }, { "65537", 17, 65537 },
+			{ "2^31-1", 31, 0x7FFFFFFFull }, { "2^61-1", 61, 0x1FFFFFFFFFFFFFFFull }, { "2^64-59", 64, 0xFFFFFFFFFFFFFFC5ull } };
+		static const struct { const char* nm; u64 a; } AS2[] = { { "1", 1 }, { "2", 2 }, { "3", 3 }, { "12", 12 }, { "65537", 65537 }, { "2^20", 1u << 20 } };
+		size_t qi, ai, lk, bc; num q, av; word qa[8];
+		for (qi = 0; qi < COUNT_OF(QS); ++qi) for (ai = 0; ai <= COUNT_OF(AS2); ++ai)
+		{
+			size_t lmin, lmax, ls[6], nl = 0, u; int two = ai < COUNT_OF(AS2);
+			num_of_u64(&q, QS[qi].q, QS[qi].nm);
+			if (two) num_of_u64(&av, AS2[ai].a, AS2[ai].nm); else num_of_u64(&av, 1, "1");
+			memset(qa, 0, sizeof(qa)); zzMul(qa, q.v, q.n, av.v, av.n, STACK);
+			lmin = wwBitSize(qa, q.n + av.n) + 1; lmax = 2 * QS[qi].bits; if (lmax > 81) lmax = 81;
+			if (lmin > lmax) continue;
+			ls[nl++] = lmin; ls[nl++] = lmin + 1; ls[nl++] = (lmin + lmax) / 2; ls[nl++] = lmax - 1; ls[nl++] = lmax; ls[nl++] = lmin + 13;
+			for (lk = 0; lk < nl; ++lk)
+			{
+				size_t l = ls[lk], np, trials; int dup = 0, must; bool_t ok = 0; tape_st ts;
+				for (u = 0; u < lk; ++u) if (ls[u] == l) dup = 1;
+				if (dup || l < lmin || l > lmax) continue;
+				if (!THOROUGH && (qi + ai + lk) % 2 && lk != 5) continue;
+				np = W_OF_B(l); bc = (qi + ai + lk) % 3 == 0 ? 0 : (qi + ai + lk) % 3 == 1 ? 10 : base;
+				/* at least 2^12 admissible r and every candidate is tried (trials = SIZE_MAX): a prime exists and has to be found.
+				   Tight lengths (a handful of admissible r, possibly none of them giving a prime) get a finite number of
+				   candidates: with trials = SIZE_MAX the search is unbounded by definition when no prime of the form exists
+				   (observed: q = 257, l = 10; q = 2^31 - 1, l = 32 do not return) */
+				must = l >= lmin + 13 && !(lk == 2 && (qi + ai) % 2);
+				trials = must ? SIZE_MAX : (lk == 2 && (qi + ai) % 2) ? 1 : 200;
+				if (priExtendPrime2_deep(l, q.n, av.n, bc) > sizeof(STACK)) continue;
+				ts.mode = 0; ts.used = 0;
+				set_fill(C, np, 0x5A);
+				LB("pri", two ? "priExtendPrime2" : "priExtendPrime", "def"); jInt("n", q.n); jInt("l", (long long)l); LW("q", q.v, q.n);
+				if (two) { jInt("m", av.n); LW("a", av.v, av.n); }
+				jInt("trials", trials == SIZE_MAX ? -1 : (long long)trials); jInt("base_count", (long long)bc); jInt("mustfind", must);
+				if (two) CALL(ok = priExtendPrime2(C, l, q.v, q.n, av.v, av.n, trials, bc, tape_gen, &ts, STACK));
+				else CALL(ok = priExtendPrime(C, l, q.v, q.n, trials, bc, tape_gen, &ts, STACK));
+				LW("p", C, np); jInt("ret", ok);
+				snprintf(c2, sizeof(c2), "q=%s,a=%s,l=%s,trials=%s,base=%s", q.nm, av.nm, lk == 0 ? "lmin" : lk == 1 ? "lmin+1" : lk == 2 ? "mid" : lk == 3 ? "lmax-1" : lk == 4 ? "lmax" : "lmin+13",
+					trials == SIZE_MAX ? "all" : trials == 1 ? "1" : "200", bc == 0 ? "0" : bc == 10 ? "10" : "all");
+				LE_(c2, "none");
+			}
+		}
 	}
 }
 /*@ENDMORE@*/
@@ -1664,7 +2141,7 @@ static int has(int argc, char** argv, const char* f)
 int main(int argc, char** argv)
 {
 	int i, all = argc <= 3;
-	if (argc < 3 || strcmp(argv[1], "record")) { fprintf(stderr, "usage: drv_arith record quick|thorough [zz red mod ww pp word qr]\n"); return 2; }
+	if (argc < 3 || strcmp(argv[1], "record")) { fprintf(stderr, "usage: drv_arith record quick|thorough [zz red mod ww pp word qr ring pri]\n"); return 2; }
 	THOROUGH = strcmp(argv[2], "thorough") == 0;
 	vxSeed(vxEnvSeed());
 	guard_init();
@@ -1674,13 +2151,15 @@ int main(int argc, char** argv)
 #define WANT(f) (all || has(argc, argv, f))
 	for (i = 0; i < 1; ++i)
 	{
-		if (WANT("zz")) { fam_zz_add(); fam_zz_mul(); fam_zz_div(); fam_zz_gcd(); fam_zz_gcd_shifted(); fam_zz_jacobi_short(); fam_zz_pow(); }
+		if (WANT("zz")) { fam_zz_add(); fam_zz_mul(); fam_zz_div(); fam_zz_gcd(); fam_zz_gcd_shifted(); fam_zz_jacobi_short(); fam_zz_pow(); fam_zz_rand(); }
 		if (WANT("mod")) fam_zz_mod();
 		if (WANT("red")) fam_zz_red();
-		if (WANT("ww")) fam_ww();
+		if (WANT("ww")) { fam_ww(); fam_ww_naf(); }
 		if (WANT("pp")) fam_pp();
 		if (WANT("word")) fam_word();
-		if (WANT("qr")) { fam_qr(); fam_gf2(); }
+		if (WANT("qr")) { fam_qr(3); fam_gf2(); }
+		else if (has(argc, argv, "ring")) fam_qr(2);
+		if (WANT("pri")) fam_pri();
 	}
 	fflush(stdout);
 	return 0;
